@@ -63,6 +63,17 @@ CLAIMED["C12"] = dict(
          "consistency; uniqueness of the writer port / entry handle at port level is checked elsewhere.",
     technique="Lean 4 proof (seqlock invariant over an interleaving semantics with word-granular copies) + atomic-step trace correspondence + differential layout check",
     design="DESIGN.md §5 C12")
+CLAIMED["C13"] = dict(
+    level="proof",
+    text="Lean 4 theorems over a small-step interleaving model of create_or_open_shm / reserve_port / remove_state / cleanup_shared_memory / Drop / remove_port on a storage with "
+         "ownership semantics (every incarnation's memory stays alive while handles exist; removal is by name), for ANY number of threads, ANY contract-respecting programs and "
+         "EVERY schedule: at most one occupant per role and incarnation; an occupied role has its bit set on the incarnation that is linked and not destroyed (never destroyed "
+         "while attached, never attached to a destroyed resource); each incarnation destroyed at most once and only in state MarkedForDestruction; the mark is final; a refused "
+         "attach changes nothing; plus a proved counterexample for forced removals outside the contract. Tied to /repo by steptrace on the process-local connection.",
+    note="Trusted: Lean kernel + 3 standard axioms; hand-written L2 model (tie = trace comparison); pthread-mutex interposition makes storage operations atomic steps; the compared "
+         "parameter is the buffer size only (the other five settings are checked by the same code path); POSIX shared-memory flavour not traced.",
+    technique="Lean 4 proof (bit-ownership / destroy-token accounting invariant over an interleaving semantics) + atomic-step trace correspondence",
+    design="DESIGN.md §5 C13")
 NOT_YET = {}
 
 def main():
